@@ -15,6 +15,7 @@ import (
 	"reflect"
 	"strconv"
 	"strings"
+	"unicode"
 
 	"golang.org/x/tools/go/ssa"
 )
@@ -188,6 +189,9 @@ func (x *Exec) jsonDecode(fr *frame, dt types.Type, dst *Value, st types.Type, s
 	case *types.Struct:
 		su, ok := st.Underlying().(*types.Struct)
 		if !ok || su.NumFields() != du.NumFields() {
+			if _, isStruct := st.Underlying().(*types.Struct); !isStruct {
+				return x.eng.makeOpaqueError("json: cannot unmarshal " + st.String() + " into Go value of type " + dt.String())
+			}
 			panic(unsupported{"json model: struct shape mismatch " + dt.String() + " vs " + st.String()})
 		}
 		d := (*dst).(Struct)
@@ -216,7 +220,7 @@ func (x *Exec) jsonDecode(fr *frame, dt types.Type, dst *Value, st types.Type, s
 	case *types.Slice:
 		su, ok := st.Underlying().(*types.Slice)
 		if !ok {
-			panic(unsupported{"json model: slice shape mismatch"})
+			return x.eng.makeOpaqueError("json: cannot unmarshal " + st.String() + " into Go value of type " + dt.String())
 		}
 		s := src.(Slice)
 		if !s.NotNil && len(s.A) == 0 {
@@ -406,3 +410,59 @@ func (e *Engine) makeOpaqueError(msg string) Value {
 
 var _ = fmt.Sprint
 var _ *ssa.Function
+
+// ---- unicode case functions: native on concrete runes; on symbolic runes the ASCII range is a
+// closed formula (what the functions' own ASCII fast paths compute) and everything else is
+// interpreted from the real source (forking along the table search).
+func init() {
+	type uf struct {
+		name   string
+		native func(r rune) uint64
+		w      int
+		ascii  func(x *Exec, r *Term) *Term
+	}
+	inRange := func(x *Exec, r *Term, lo, hi rune) *Term {
+		return x.cx.And(x.cx.Cmp("bvsle", mkConst(32, uint64(lo)), r), x.cx.Cmp("bvsle", r, mkConst(32, uint64(hi))))
+	}
+	add := func(x *Exec, r *Term, d int32) *Term { return x.cx.Bin("bvadd", r, mkConst(32, uint64(uint32(d)))) }
+	b2u := func(b bool) uint64 {
+		if b {
+			return 1
+		}
+		return 0
+	}
+	fns := []uf{
+		{"unicode.ToLower", func(r rune) uint64 { return uint64(uint32(unicode.ToLower(r))) }, 32, func(x *Exec, r *Term) *Term {
+			return x.cx.Ite(inRange(x, r, 'A', 'Z'), add(x, r, 32), r)
+		}},
+		{"unicode.ToUpper", func(r rune) uint64 { return uint64(uint32(unicode.ToUpper(r))) }, 32, func(x *Exec, r *Term) *Term {
+			return x.cx.Ite(inRange(x, r, 'a', 'z'), add(x, r, -32), r)
+		}},
+		{"unicode.SimpleFold", func(r rune) uint64 { return uint64(uint32(unicode.SimpleFold(r))) }, 32, func(x *Exec, r *Term) *Term {
+			eq := func(c rune) *Term { return x.cx.Eq(r, mkConst(32, uint64(c))) }
+			res := x.cx.Ite(inRange(x, r, 'A', 'Z'), add(x, r, 32), x.cx.Ite(inRange(x, r, 'a', 'z'), add(x, r, -32), r))
+			res = x.cx.Ite(eq('k'), mkConst(32, 0x212A), res)
+			res = x.cx.Ite(eq('s'), mkConst(32, 0x17F), res)
+			return res
+		}},
+		{"unicode.IsUpper", func(r rune) uint64 { return b2u(unicode.IsUpper(r)) }, 0, func(x *Exec, r *Term) *Term { return inRange(x, r, 'A', 'Z') }},
+		{"unicode.IsLower", func(r rune) uint64 { return b2u(unicode.IsLower(r)) }, 0, func(x *Exec, r *Term) *Term { return inRange(x, r, 'a', 'z') }},
+	}
+	for _, f := range fns {
+		f := f
+		intrinsics[f.name] = func(x *Exec, fr *frame, args []Value) Value {
+			r := args[0].(*Term)
+			if r.IsConst() {
+				v := f.native(rune(int32(uint32(r.C))))
+				if f.w == 0 {
+					return mkBool(v != 0)
+				}
+				return mkConst(f.w, v)
+			}
+			if x.Decide(x.cx.And(x.cx.Cmp("bvsle", mkConst(32, 0), r), x.cx.Cmp("bvsle", r, mkConst(32, 0x7F)))) {
+				return f.ascii(x, r)
+			}
+			return x.callBody(fr.caller, fr.fn, args)
+		}
+	}
+}
